@@ -243,11 +243,11 @@ def run(s):
         if s.mine(i):
             rng = s.rng('state', i)
             pool = gen.text_pool('plain')
-            ro_txt = gen.rand_ro(rng, n_stories=rng.randint(2, 5), pool=pool)
+            ro_txt = gen.rand_ro(rng, n_stories=rng.randint(2, 5), pool=pool, ed_start='wild')
             for kind, shapes, kw in gen.shape_product(rng, Abs(ro_txt), gen.Ids('P%d.' % i), pool):
                 K.run_case(s, ro_txt, kind, kw, pretty=rng.random() < 0.5, ctx={'shapes': shapes})
     K.fuzz(s, 120 if q else 10000, K.kind_weights(1, 1, 0.2), steps=(5, 25),
-           shape_weights=(0.45, 0.3, 0.2, 0.05), selfref=0.15)
+           shape_weights=(0.45, 0.3, 0.2, 0.05), selfref=0.15, ro_kw={'ed_start': 'wild'})
     # messages that lack a tag the schema requires (one element dropped, anywhere)
     K.fuzz(s, 200 if q else 8000, K.kind_weights(1, 1, 0.3), steps=(6, 20),
            shape_weights=(0.9, 0.05, 0.05, 0.0), selfref=0.02, drop=0.6)
